@@ -6,61 +6,65 @@ Lemma nth_app_last {A} (l : list A) x : nth_error (l ++ [x]) (length l) = Some x
 Proof. rewrite nth_error_app2 by lia. rewrite Nat.sub_diag. reflexivity. Qed.
 
 (* reattaching to a live instance yields a client of that same instance, with the recorded mode *)
-Theorem reattach_same_instance w c x :
-  nth_error (cls w) c = Some x -> inst_alive w (c_inst x) = true ->
-  let '(w', r) := rstep w (RReattach c) in
+Theorem reattach_same_instance net w c x h :
+  nth_error (cls w) c = Some x -> c_conn x = true -> inst_alive w (c_inst x) = true ->
+  let '(w', r) := rstep net w (RReattach c) h in
   r = 1%Z /\ insts w' = insts w /\
-  nth_error (cls w') (length (cls w)) = Some {| c_inst := c_inst x; c_test := c_test x; c_live := true |}.
-Proof. intros H A. simpl. rewrite H, A. simpl. repeat split; auto. apply nth_app_last. Qed.
+  nth_error (cls w') (length (cls w)) = Some {| c_inst := c_inst x; c_test := c_test x; c_live := true; c_conn := true |}.
+Proof. intros H C A. simpl. rewrite H, C, A. simpl. repeat split; auto. apply nth_app_last. Qed.
 
 (* reattaching when nothing is alive at the address: process-not-found, and nothing is launched *)
-Theorem reattach_dead_not_found w c x :
-  nth_error (cls w) c = Some x -> inst_alive w (c_inst x) = false ->
-  let '(w', r) := rstep w (RReattach c) in r = 0%Z /\ insts w' = insts w.
-Proof. intros H A. simpl. rewrite H, A. simpl. auto. Qed.
+Theorem reattach_dead_not_found net w c x h :
+  nth_error (cls w) c = Some x -> c_conn x = true -> inst_alive w (c_inst x) = false ->
+  let '(w', r) := rstep net w (RReattach c) h in r = 0%Z /\ insts w' = insts w.
+Proof. intros H C A. simpl. rewrite H, C, A. simpl. auto. Qed.
+
+(* ... and in no case does a reattach launch or change an instance *)
+Theorem reattach_never_touches_instances net w c h : insts (fst (rstep net w (RReattach c) h)) = insts w.
+Proof. simpl. destruct (nth_error (cls w) c) as [x|]; [|reflexivity]. destruct (c_conn x); cbn [negb]; [|reflexivity]. destruct (inst_alive w (c_inst x)); reflexivity. Qed.
 
 Lemma nth_updl_same {A} (l : list A) : forall i z, i < length l -> nth_error (updl l i z) i = Some z.
 Proof. induction l as [|h t IH]; intros [|i] z Hl; simpl in *; try lia; auto. apply IH. lia. Qed.
 
-Lemma rset_stores w c x y v :
-  nth_error (cls w) c = Some x -> c_live x = true -> nth_error (insts w) (c_inst x) = Some y -> i_alive y = true ->
-  snd (rstep w (RSet c v)) = 1%Z /\ cls (fst (rstep w (RSet c v))) = cls w /\
-  nth_error (insts (fst (rstep w (RSet c v)))) (c_inst x) = Some {| i_alive := true; i_test := i_test y; i_store := v |}.
+Lemma rset_stores net w c x y v h :
+  nth_error (cls w) c = Some x -> c_live x = true -> nth_error (insts w) (c_inst x) = Some y -> i_conn y = CUp ->
+  snd (rstep net w (RSet c v) h) = 1%Z /\ cls (fst (rstep net w (RSet c v) h)) = cls w /\
+  nth_error (insts (fst (rstep net w (RSet c v) h))) (c_inst x) = Some {| i_alive := i_alive y; i_conn := CUp; i_test := i_test y; i_store := v |}.
 Proof.
   intros H L EI A. assert (Li : c_inst x < length (insts w)) by (apply nth_error_Some; congruence).
-  simpl. rewrite H, L. unfold inst_alive. rewrite EI, A. cbn [andb fst snd insts cls].
+  simpl. rewrite H, L. unfold inst_conn. rewrite EI, A. cbn [works andb fst snd insts cls].
   repeat split; auto. rewrite nth_updl_same by exact Li. reflexivity.
 Qed.
 
-Lemma rget_reads w c x y :
-  nth_error (cls w) c = Some x -> c_live x = true -> nth_error (insts w) (c_inst x) = Some y -> i_alive y = true ->
-  snd (rstep w (RGet c)) = i_store y.
-Proof. intros H L EI A. simpl. rewrite H, L. unfold inst_alive. rewrite EI, A. reflexivity. Qed.
+Lemma rget_reads net w c x y h :
+  nth_error (cls w) c = Some x -> c_live x = true -> nth_error (insts w) (c_inst x) = Some y -> i_conn y = CUp ->
+  snd (rstep net w (RGet c) h) = i_store y.
+Proof. intros H L EI A. simpl. rewrite H, L. unfold inst_conn. rewrite EI, A. reflexivity. Qed.
 
 (* what is written through one client of an instance is read through any other live client of it *)
-Theorem set_then_get w c1 c2 x1 x2 y v :
+Theorem set_then_get net w c1 c2 x1 x2 y v h1 h2 :
   nth_error (cls w) c1 = Some x1 -> nth_error (cls w) c2 = Some x2 -> c_inst x1 = c_inst x2 ->
-  c_live x1 = true -> c_live x2 = true -> nth_error (insts w) (c_inst x1) = Some y -> i_alive y = true ->
-  snd (rstep (fst (rstep w (RSet c1 v))) (RGet c2)) = v.
+  c_live x1 = true -> c_live x2 = true -> nth_error (insts w) (c_inst x1) = Some y -> i_conn y = CUp ->
+  snd (rstep net (fst (rstep net w (RSet c1 v) h1)) (RGet c2) h2) = v.
 Proof.
   intros H1 H2 E L1 L2 EI A.
-  destruct (rset_stores w c1 x1 y v H1 L1 EI A) as (_ & HC & HI).
-  rewrite (rget_reads _ c2 x2 {| i_alive := true; i_test := i_test y; i_store := v |}); auto.
+  destruct (rset_stores net w c1 x1 y v h1 H1 L1 EI A) as (_ & HC & HI).
+  rewrite (rget_reads net _ c2 x2 {| i_alive := i_alive y; i_conn := CUp; i_test := i_test y; i_store := v |}); auto.
   - rewrite HC. exact H2.
   - rewrite <- E. exact HI.
 Qed.
 
 (* Kill through a test-mode client leaves the serving instance untouched; only cancelling its context stops it *)
-Theorem test_mode_kill_keeps_server w c x :
-  nth_error (cls w) c = Some x -> c_test x = true -> fst (rstep w (RKill c)) = w.
+Theorem test_mode_kill_keeps_server net w c x h :
+  nth_error (cls w) c = Some x -> c_test x = true -> fst (rstep net w (RKill c) h) = w.
 Proof. intros H T. simpl. rewrite H, T. reflexivity. Qed.
 
-Theorem kill_ends_instance w c x :
+Theorem kill_ends_instance net w c x h :
   nth_error (cls w) c = Some x -> c_test x = false -> c_live x = true -> c_inst x < length (insts w) ->
-  inst_alive (fst (rstep w (RKill c))) (c_inst x) = false.
+  inst_alive (fst (rstep net w (RKill c) h)) (c_inst x) = false /\ inst_conn (fst (rstep net w (RKill c) h)) (c_inst x) = CDown.
 Proof.
-  intros H T L Li. simpl. rewrite H, T, L. cbn [fst]. unfold inst_alive, set_alive. cbn [insts].
+  intros H T L Li. simpl. rewrite H, T, L. cbn [fst]. unfold inst_alive, inst_conn, set_state. cbn [insts].
   destruct (nth_error (insts w) (c_inst x)) as [y|] eqn:E; [|apply nth_error_None in E; lia].
   cbn [insts].
-  rewrite nth_updl_same by exact Li. reflexivity.
+  rewrite nth_updl_same by exact Li. split; reflexivity.
 Qed.
